@@ -53,11 +53,11 @@ impl OutputFormat for Artworx {
 
         let mut result = vec![1]; // version
         result.extend(to_ega_data(&buf.palette));
-        if buf.get_font_dimensions().height != 16 {
-            return Err(SavingError::Only8x16FontsSupported.into());
-        }
-
         if let Some(font) = buf.get_font(fonts[0]) {
+            // the font that is written is the one of the used font page, not necessarily the one in slot 0
+            if font.size.height != 16 {
+                return Err(SavingError::Only8x16FontsSupported.into());
+            }
             result.extend(font.convert_to_u8_data());
         } else {
             return Err(SavingError::NoFontFound.into());
